@@ -5,6 +5,7 @@
 //   output: EXCL <two holders at once / writer with readers> LOST <lost updates of the protected plain counter> UPG <upgrade inconsistencies>
 #include "common.h"
 #include <random>
+#include <mutex>
 #include "oneapi/tbb/spin_mutex.h"
 #include "oneapi/tbb/queuing_mutex.h"
 #include "oneapi/tbb/mutex.h"
@@ -14,12 +15,12 @@
 #include "oneapi/tbb/null_mutex.h"
 using namespace vh;
 
-struct Guarded { std::atomic<int> writers{0}, readers{0}; volatile long plain = 0; std::atomic<long> expected{0}; };
+struct Guarded { std::atomic<int> writers{0}, readers{0}; volatile long plain = 0; std::atomic<long> expected{0}; std::atomic<long> gen{0}; };
 static std::atomic<long> g_excl{0}, g_upg{0};
 
 static void in_write(Guarded& g, std::mt19937& r) {
     if (g.writers.fetch_add(1) != 0 || g.readers.load() != 0) g_excl++;
-    long v = g.plain; for (volatile unsigned k = 0; k < (r() % 60); ++k) {} g.plain = v + 1; g.expected++;
+    g.gen++; long v = g.plain; for (volatile unsigned k = 0; k < (r() % 60); ++k) {} g.plain = v + 1; g.expected++;
     g.writers--;
 }
 static void in_read(Guarded& g, std::mt19937& r) {
@@ -64,10 +65,15 @@ template <class M> static void run_rw(int T, int n, unsigned seed, Out& o) {
             else lk.acquire(m[w], write);
             if (write) {
                 in_write(g[w], r);
-                if (r() % 4 == 0) { lk.downgrade_to_reader(); in_read(g[w], r); }
+                if (r() % 4 == 0) { long g1 = g[w].gen.load(); lk.downgrade_to_reader(); in_read(g[w], r); if (g[w].gen.load() != g1) g_upg++; }   // downgrade never lets a writer in
             } else {
                 in_read(g[w], r);
-                if (r() % 4 == 0) { lk.upgrade_to_writer(); in_write(g[w], r); }     // whether or not the lock was released in between: we are the writer now
+                if (r() % 4 == 0) {
+                    long g0 = g[w].gen.load();                       // we hold the read lock: no writer section can start now
+                    bool kept = lk.upgrade_to_writer();
+                    if (kept && g[w].gen.load() != g0) g_upg++;      // "true" = no other writer ran in between
+                    in_write(g[w], r);                               // either way we are the writer now
+                }
             }
             lk.release();
             if (r() % 16 == 0) std::this_thread::yield();
@@ -76,6 +82,30 @@ template <class M> static void run_rw(int T, int n, unsigned seed, Out& o) {
     for (auto& x : th) x.join();
     long lost = 0; for (int w = 0; w < 2; ++w) lost += g[w].expected.load() - g[w].plain;
     o.word("EXCL"); o.put(g_excl.load()); o.word("LOST"); o.put(lost); o.word("UPG"); o.put(g_upg.load());
+}
+
+// queue order: the main thread holds the lock, T threads queue up one after the other (each is started only when the previous one has been blocked
+// for 2 ms), the lock is released: the threads must get it in the order they queued.
+template <class M, bool RW> static long fifo_order(int T, int rounds) {
+    long bad = 0;
+    for (int round = 0; round < rounds; ++round) {
+        M m; std::vector<int> order; std::mutex om; std::atomic<int> entered{0};
+        typename M::scoped_lock hold; 
+        if constexpr (RW) hold.acquire(m, true); else hold.acquire(m);
+        std::vector<std::thread> th; void* prev_tail = (void*)m.q_tail.load();
+        for (int t = 0; t < T; ++t) {
+            th.emplace_back([&, t] { typename M::scoped_lock lk; entered++;
+                if constexpr (RW) lk.acquire(m, true); else lk.acquire(m);
+                { std::lock_guard<std::mutex> l(om); order.push_back(t); } lk.release(); });
+            // white box: thread t is queued exactly when the mutex's tail pointer has moved on (no timing assumption)
+            for (long spin = 0; spin < 20000000 && (void*)m.q_tail.load() == prev_tail; ++spin) std::this_thread::yield();
+            prev_tail = (void*)m.q_tail.load();
+        }
+        hold.release();
+        for (auto& x : th) x.join();
+        for (int t = 0; t < T; ++t) if (order[t] != t) { bad++; break; }
+    }
+    return bad;
 }
 
 int main() {
@@ -93,6 +123,8 @@ int main() {
         case 5: run_rw<tbb::queuing_rw_mutex>(T, n, seed, o); break;
         case 6: run_rw<tbb::rw_mutex>(T, n, seed, o); break;
         case 7: run_rw<tbb::speculative_spin_rw_mutex>(T, n, seed, o); break;
+        case 9: { long b = fifo_order<tbb::queuing_mutex, false>(T, n); o.word("EXCL"); o.put(0); o.word("LOST"); o.put(0); o.word("UPG"); o.put(0); o.word("FIFO"); o.put(b); } break;
+        case 10: { long b = fifo_order<tbb::queuing_rw_mutex, true>(T, n); o.word("EXCL"); o.put(0); o.word("LOST"); o.put(0); o.word("UPG"); o.put(0); o.word("FIFO"); o.put(b); } break;
         default: { o.word("EXCL"); o.put(0); o.word("LOST"); o.put(0); o.word("UPG"); o.put(0); } break;
         }
         wd.disarm();
